@@ -461,6 +461,10 @@ pub struct Mode {
     /// server role: a request was accepted before the script starts and is never answered, so
     /// accept() cannot end and the control stream has to be processed to its last frame
     pub held_request: bool,
+    /// the peer sends STOP_SENDING(code) on the k-th unidirectional stream h3 itself opened
+    /// (0 control, 1/2 QPACK, 3 grease) as soon as it exists - for the grease stream this is what
+    /// RFC 9114 6.2.3 tells a peer to do with a stream type it does not know
+    pub stop_own: Option<(u8, u64)>,
 }
 
 pub struct Obs {
@@ -562,6 +566,14 @@ pub fn run_script(script: &[UStream], h3_is_client: bool, mode: &Mode, seed: u64
             }
         }
         uni_scripts.push(steps);
+    }
+    if let Some((k, code)) = mode.stop_own {
+        let id = sim::make_id(h3_side, false, k as u64);
+        sched.add_script(vec![raw::step_custom(
+            "stop_sending on a stream h3 opened",
+            move |n| n.streams.get(&id).map(|s| s.pipes[h3_side].is_some()).unwrap_or(false),
+            move |n, _| n.raw_stop(raw_side, id, code),
+        )]);
     }
     let held = mode.held_request && !h3_is_client;
     if held {
@@ -682,7 +694,7 @@ fn describe(script: &[UStream], h3_is_client: bool, mode: &Mode) -> serde_json::
     json!({
         "h3_role": if h3_is_client { "client" } else { "server" },
         "streams": script.iter().map(|u| json!({"type": format!("{:?}", u.kind), "type_varint_form": u.type_form, "id_varint_form": u.id_form, "frames": u.frames.iter().map(|t| format!("{:?}", t)).collect::<Vec<_>>(), "end": format!("{:?}", u.end), "bytes": hex_short(&ustream_bytes(u), 24)})).collect::<Vec<_>>(),
-        "mode": {"credit": format!("{:?}", mode.credit), "backpressure": mode.backpressure, "stall_grease_stream": mode.stall_grease_stream, "grease": mode.grease},
+        "mode": {"credit": format!("{:?}", mode.credit), "backpressure": mode.backpressure, "stall_grease_stream": mode.stall_grease_stream, "grease": mode.grease, "peer_stops_h3_stream": mode.stop_own.map(|(k, c)| format!("{} with code {:#x}", ["control", "qpack encoder", "qpack decoder", "grease"][k as usize % 4], c))},
     })
 }
 
@@ -698,7 +710,22 @@ pub fn check_script(script: &[UStream], h3_is_client: bool, mode: &Mode, seed: u
     }
     let case = describe(script, h3_is_client, mode);
     let (reset_frames, _) = reset_points(script, seed);
-    let ex = expected(script, h3_is_client, &reset_frames, mode.held_request);
+    let mut ex = expected(script, h3_is_client, &reset_frames, mode.held_request);
+    if let Some((k, _)) = mode.stop_own {
+        rep.count(&format!("peer_stops_h3_stream[{}]", ["control", "qpack encoder", "qpack decoder", "grease"][k as usize % 4]));
+        if k < 3 {
+            // RFC 9114 6.2.1 / RFC 9204 4.2: a critical stream the peer no longer reads may be treated
+            // as closed - H3_CLOSED_CRITICAL_STREAM is acceptable whenever h3 notices (it does when it
+            // next writes there), never required. Stopping the grease stream changes nothing.
+            if !ex.errors.contains(&rf::H3_CLOSED_CRITICAL_STREAM) {
+                ex.errors.push(rf::H3_CLOSED_CRITICAL_STREAM);
+            }
+            if ex.errors.len() == 1 {
+                ex.none_ok = true;
+            }
+            ex.goaway_effect = None;
+        }
+    }
     if mode.held_request && !h3_is_client {
         rep.count("scripts_with_a_request_in_progress");
     }
@@ -823,7 +850,7 @@ fn run_case(gen: &str, index: u64, seed: u64, _tier: Tier, rep: &mut Report) {
     let mut rng = Rng::new(seed);
     // which unassigned frame types stand for "unknown" in this case
     rf::set_unknown_salt(seed);
-    let plain = Mode { credit: CreditMode::Unlimited, backpressure: false, stall_grease_stream: false, grease: true, held_request: false };
+    let plain = Mode { credit: CreditMode::Unlimited, backpressure: false, stall_grease_stream: false, grease: true, held_request: false, stop_own: None };
     match gen {
         "single_control_sequences" => {
             let h3_is_client = index % 2 == 0;
@@ -839,7 +866,7 @@ fn run_case(gen: &str, index: u64, seed: u64, _tier: Tier, rep: &mut Report) {
         "multi_stream_scripts" => {
             let n = 1 + rng.usize(4);
             let s: Vec<UStream> = (0..n).map(|_| gen_stream(&mut rng)).collect();
-            let mode = Mode { credit: *rng.pick(&[CreditMode::Unlimited, CreditMode::Exactly3, CreditMode::Late]), backpressure: rng.bool(), stall_grease_stream: rng.chance(1, 6), grease: rng.chance(3, 4), held_request: rng.chance(1, 3) };
+            let mode = Mode { credit: *rng.pick(&[CreditMode::Unlimited, CreditMode::Exactly3, CreditMode::Late]), backpressure: rng.bool(), stall_grease_stream: rng.chance(1, 6), grease: rng.chance(3, 4), held_request: rng.chance(1, 3), stop_own: if rng.chance(1, 4) { Some((*rng.pick(&[0u8, 1, 2, 3, 3, 3]), *rng.pick(&[0u64, 0x103, 0x10c]))) } else { None } };
             check_script(&s, rng.bool(), &mode, rng.next(), rep);
         }
         "goaway_effect_traces" => {
@@ -855,7 +882,7 @@ fn run_case(gen: &str, index: u64, seed: u64, _tier: Tier, rep: &mut Report) {
                 frames.push(CTok::Goaway(*rng.pick(pool)));
             }
             let s = vec![UStream { kind: UKind::Control, type_form: 1, id_form: 1, frames, end: UEnd::Open }];
-            let mode = Mode { credit: *rng.pick(&[CreditMode::Unlimited, CreditMode::Exactly3, CreditMode::Late]), backpressure: rng.bool(), stall_grease_stream: rng.chance(1, 4), grease: true, held_request: false };
+            let mode = Mode { credit: *rng.pick(&[CreditMode::Unlimited, CreditMode::Exactly3, CreditMode::Late]), backpressure: rng.bool(), stall_grease_stream: rng.chance(1, 4), grease: true, held_request: false, stop_own: if rng.chance(1, 4) { Some((3, *rng.pick(&[0u64, 0x103]))) } else { None } };
             check_script(&s, h3_is_client, &mode, rng.next(), rep);
         }
         "credit_and_backpressure" => {
@@ -875,7 +902,7 @@ fn run_case(gen: &str, index: u64, seed: u64, _tier: Tier, rep: &mut Report) {
             if rng.bool() {
                 s.push(UStream { kind: *rng.pick(&[UKind::Encoder, UKind::Decoder, UKind::Grease, UKind::Unknown, UKind::WtUni]), type_form: *rng.pick(&[1usize, 2, 4, 8]), id_form: *rng.pick(&[1usize, 2, 4, 8]), frames: vec![], end: UEnd::Open });
             }
-            let mode = Mode { credit: *rng.pick(&[CreditMode::Exactly3, CreditMode::Late, CreditMode::Unlimited]), backpressure: rng.bool(), stall_grease_stream: rng.chance(1, 3), grease: true, held_request: false };
+            let mode = Mode { credit: *rng.pick(&[CreditMode::Exactly3, CreditMode::Late, CreditMode::Unlimited]), backpressure: rng.bool(), stall_grease_stream: rng.chance(1, 3), grease: true, held_request: false, stop_own: if rng.chance(1, 3) { Some((*rng.pick(&[0u8, 3, 3]), *rng.pick(&[0u64, 0x103]))) } else { None } };
             check_script(&s, h3_is_client, &mode, rng.next(), rep);
         }
         _ => {}
